@@ -49,8 +49,12 @@ Step(r) ==
     [] r.ev = "Panic" -> [t |-> t, c |-> c, bad |-> {"panic"}]
     [] OTHER -> [t |-> t, c |-> c, bad |-> {"unknown-event"}]
 
-Next == /\ why = {} /\ l + 1 <= N /\ Rec[l + 1].ev # "New"
-        /\ LET x == Step(Rec[l + 1]) IN t' = x.t /\ c' = x.c /\ why' = x.bad
+\* a rejected event does not end the run: the countdown is re-synchronised with the logged remaining
+\* time and the rest of the sequence is still judged (by the observer automaton above all)
+Next == /\ l + 1 <= N /\ Rec[l + 1].ev # "New"
+        /\ LET r == Rec[l + 1]  x == Step(r) IN
+             /\ t' = IF x.bad # {} /\ r.ev \in {"TPoll", "TReset"} THEN [x.t EXCEPT !.time = r.remaining] ELSE x.t
+             /\ c' = x.c /\ why' = x.bad
         /\ l' = l + 1
 Spec == Init /\ [][Next]_vars
 Conforms == why = {}
